@@ -11,7 +11,8 @@
 // 10 tokens, depth 7/8, fresh and committed slot) aimed at writes to one slot spread over several
 // transactions of a block with nested snapshots, and E5 "destruct markers under a snapshot tree". E3-E5 run
 // each sequence "hot" (getters after every token) and "cold" (no getter before the end), in trie mode and
-// with a snapshot tree (read-back through it must equal the model and a trie-only reopen). See DESIGN.md section 4 / C08 and the `rule` written
+// with a snapshot tree (read-back through it must equal the model and a trie-only reopen); E6 "snapshot
+// layering" drives the real Tree.Cap / Journal+reload between blocks. See DESIGN.md section 4 / C08 and the `rule` written
 // into the evidence.
 package main
 
@@ -1100,12 +1101,14 @@ func main() {
 		"E3 'incarnations': every sequence of the stated length over the 13 tokens {AddBalance(a0,1),Commit(t)+reopen,CreateAccount(a0),Suicide(a0),Finalise(t),IntermediateRoot(f/t),SetState(a0,s0,1/2/0),Snapshot,Revert(latest),Copy>copy} closed by Commit(true)+reopen, all getters of a0 compared with the model after every token; "+
 		"E4 'multi-transaction slot histories': every sequence of the stated length over the 10 tokens {SetState(a0,s0,0/1/2),SetState(a0,s1,1),Snapshot,Revert(latest),Revert(oldest),Finalise(f),IntermediateRoot(f),Commit(f)+reopen}, from two bases (empty state = fresh slot; SetState(a0,s0,1);Commit(f) = slot in the committed trie), closed by Commit(false)+reopen, same per-token comparison; "+
 		"E5 'destruct markers under a snapshot tree': the 8-token sub-alphabet {AddBalance(a0,1),SetState(a0,s0,1),Commit(t)+reopen,CreateAccount(a0),Suicide(a0),Finalise(t),Snapshot,Revert(latest)} of E3 at depth 6-7 (thorough 8) with a snapshot tree attached (both polarities of the per-block destruct marker: CreateAccount over an existing account inside a reverted snapshot, and over an account destructed earlier in the same block). "+
+		"E6 'snapshot layering': every sequence of the stated length over the 10 macro tokens {SetState(a0,s0,0/1),SetState(a0,s1,1),Suicide(a0),CreateAccount(a0),[AddBalance(a1,1);Commit(f)+reopen],SnapshotCap(0/1/2),SnapshotJournalReload}, from two bases (empty tree; s0 of a0 non-zero and flushed into the snapshot DISK layer by SetState;Commit;Cap(0)), in snap-diff mode; SnapshotCap(k) calls the real snapshot.Tree.Cap(committed root, k) on the tree the StateDB uses (StateDB.Commit itself calls Cap(root,128), a no-op at these depths), SnapshotJournalReload calls Tree.Journal(root) and loads a new tree from the database with snapshot.New(NoBuild) (BlockChain.Stop / NewBlockChain); both only directly after a Commit/Cap/reload and followed by a reopen through the tree. After EVERY Commit, Cap and reload: model vs fresh snapshot-backed StateDB vs trie-only StateDB at the root, and the tree's AccountIterator/StorageIterators must list exactly the model's accounts and non-zero slots. "+
 		"Execution variants of E3/E4/E5 (named per stage): 'hot' = all getters after every token; 'cold' = the same program but NO getter is called before the end of the sequence (observations warm originStorage / the live-object set and can hide a wrong read path), oracles then: model at the end of the sequence, roots at every IntermediateRoot/Commit, read-back after the last Commit; "+
 		"snapshot-mode executions of E3/E4/E5 append AddBalance(a1,1) before the closing Commit and E1's snapshot-mode executions are run a second time with AddBalance(a2,1) inserted before the closing Commit (a change of ANOTHER account makes the commit a state transition, so the block's destruct set and account/storage maps always reach the snapshot tree - Commit skips snaps.Update when the root is unchanged). "+
 		"Cross-backing oracle: after every observed Commit in a snapshot mode the StateDB reopened WITH the snapshot tree must show exactly what a StateDB opened at the same root WITHOUT it shows (and both what the model shows); the history continues on the snapshot-backed object and every later root is compared with the reference root and with the trie-only content-built / fresh-replay roots. "+
-		"in E3/E4/E5 a model-only pre-pass drops infeasible sequences and sequences containing a token that is a no-op by the model at that point (covered by a shorter sequence of the stage), an unused Snapshot, or a Copy with a non-empty journal (F1 is decided in E2); the dropped sequences are counted. Programs whose next token is infeasible (SubBalance/SubRefund below zero, Revert without a valid revision) are skipped and counted. "+
+		"in E3/E4/E5/E6 a model-only pre-pass drops infeasible sequences (E6 also: Cap(k) with at most k diff layers, a reload with no diff layer or directly after a reload) and sequences containing a token that is a no-op by the model at that point (covered by a shorter sequence of the stage), an unused Snapshot, or a Copy with a non-empty journal (F1 is decided in E2); the dropped sequences are counted. Programs whose next token is infeasible (SubBalance/SubRefund below zero, Revert without a valid revision) are skipped and counted. "+
 		"states = distinct reference-model states reached (fingerprints); transitions = tokens executed on the real StateDB; a revert check is non-trivial when the model state differed from the snapshot before the revert.")
 	r.Assume(
+		"snapshot layering (E6) is driven through the public Tree.Cap / Tree.Journal / snapshot.New of the tree the StateDB uses instead of 129 blocks of history; a tree generated from the empty root keeps its generator's abort channel until the first flush, so Cap(k>=1) also flushes the accumulator to disk there - the production layering (accumulator kept in memory) is reached after a Cap(0) or a journal reload, both of which the enumeration contains",
 		"the reference root is computed with go-ethereum v1.9.15 trie/rlp/keccak over rlp([nonce,balance,storageRoot,codeHash]); the repository's trie itself is C07's subject",
 		"an ideal Copy is the identity on everything but the revision stack (documented: revisions of the original cannot be applied to the copy); failures that need a Copy taken while the journal is non-empty carry the oracle suffix mid-tx-copy",
 		"address 0x03 (RIPEMD touch exception), SubRefund/SubBalance below zero and reverting to an invalidated revision are by-design behaviours outside the quantifier",
@@ -1115,6 +1118,7 @@ func main() {
 	if *only == "" {
 		r.Require(cntCrossBacking > 0, "no snapshot-vs-trie cross-backing check ran")
 		r.Require(cntColdProgs > 0, "no cold execution ran")
+		r.Require(cntIterChecks > 0, "no snapshot-iterator check ran")
 		r.Require(cntModelMoved > 0, "the reference model never left its initial state")
 		r.Require(cntRevNontriv > 0, "no revert had anything to undo")
 		r.Require(cntReadbacks > 0, "no committed state was read back")
